@@ -77,6 +77,9 @@ def catalogue():
         # boundary parameters: windows / chunks of ONE item, a slice from offset 0 and from a NEGATIVE offset (of an
         # endless list that is nothing: taking items from it must still terminate, with fewer items), every 1st item
         "windows-1": ("window", 1, lambda E, H, c, L, mk: E.overlapping_groups(L, 1, c), "any", False, "same"),
+        # a WIDE window: a stage that buffers width*width items before its first window stays under the linear
+        # bound for widths <= 3 (seed C14-13); the bound for width 8 is c + 7
+        "windows-8": ("window", 8, lambda E, H, c, L, mk: E.overlapping_groups(L, 8, c), "any", False, "same"),
         "chunks-1": ("chunk", 1, lambda E, H, c, L, mk: E.wrap(L, 1, c), "any", False, "same"),
         "slice-from-0": ("drop", 0, lambda E, H, c, L, mk: E.slice_from(L, 0, c), "any", "same", "same"),
         "slice-from-minus-2": ("same", 0, lambda E, H, c, L, mk: E.slice_from(L, -2, c), "any", "same", "same"),
